@@ -29,6 +29,7 @@ type UnitResult struct {
 	SolverMs    int64         `json:"solver_ms"`
 	WallMs      int64         `json:"wall_ms"`
 	ScriptLines int           `json:"script_lines"`
+	LocalTypes  map[string]string `json:"-"`
 	unit        *Unit
 }
 
@@ -67,6 +68,7 @@ func (eng *Engine) VerifyFunction(fn *ssa.Function, key string, sp *FuncSpec) *U
 		res.Vacuity = "n/a (trusted)"
 		return res
 	}
+	res.LocalTypes = u.computeAliases(key)
 	func() {
 		defer func() {
 			if r := recover(); r != nil {
@@ -215,6 +217,17 @@ func (u *Unit) build() {
 				}
 			}
 			u.reach = append(u.reach, reachCheck{fmt.Sprintf("return@%s", posString(u.eng.prog, lastPos(r.blk))), u.c.Len(), r.pc})
+			// lock balance: every mutex the function locked or unlocked is held as often as at entry
+			var lockKeys []string
+			for k := range r.st.ghost {
+				if strings.HasPrefix(k, "lock|") {
+					lockKeys = append(lockKeys, k)
+				}
+			}
+			sort.Strings(lockKeys)
+			for _, k := range lockKeys {
+				u.oblige(fr, "lock-balance", u.fn.Pos(), "mutex released on every path", r.pc, Eq(r.st.ghost[k], u.ghostInit(k)))
+			}
 			for _, en := range u.spec.Ensures {
 				t, err := env.evalGoal(en.E)
 				if err != nil {
